@@ -1,11 +1,170 @@
 import Refine.Lemmas.MatrixReal
+import Refine.Lemmas.MatrixDiag2
+import Refine.Lemmas.MatrixRot0
+import Refine.Lemmas.MatrixFun
 
-/-! C16: symmetric-matrix kernel (work in progress) -/
+/-!
+  C16 — the symmetric-matrix kernel of `ref_matrix.c` (model: `Refine/Model/Matrix.lean`).
+
+  All theorems over ℝ are about the executable model instantiated at the lawful real instance:
+  they hold in exact arithmetic; IEEE rounding is modelled (the `Float` instance is bit-compared with
+  the C by the `matrix_*` streams), not verified.
+
+  `IsEigSys d m := Orthonormal d ∧ formM d = m`.  The QL iteration stops on a *threshold*, so the system
+  returned by `diagM` reconstructs `m` only up to the dropped sub-diagonal entry; the theorems about
+  log/exp/sqrt/intersect/bound therefore take `IsEigSys` of the systems returned by the inner `diagM`
+  calls as explicit hypotheses (checked numerically on the implementation by the stream oracles).
+-/
 namespace Refine.Props.C16
 open Refine Refine.Model.Matrix Refine.ScalarReal
+open _root_.Matrix
+
+/-! ### non-finite input is rejected by the guard (any scalar instance, in particular `Float`) -/
+
+/-- a non-finite entry makes `ref_matrix_diag_m` return REF_INVALID before anything else happens -/
+theorem diagM_nonfinite_invalid {α : Type} [Scalar α] (m : M6 α) (h : m.allFinite = false) :
+    diagM m = .error .invalid := by
+  unfold diagM; simp [h]
+
+theorem diagM2_nonfinite_invalid {α : Type} [Scalar α] (m : M3 α)
+    (h : (Scalar.isFinite m.m11 && Scalar.isFinite m.m12 && Scalar.isFinite m.m22) = false) :
+    diagM2 m = .error .invalid := by
+  unfold diagM2; simp [h]
+
+/-- every routine that starts with the eigen decomposition propagates REF_INVALID -/
+theorem matrix_functions_nonfinite_invalid {α : Type} [Scalar α] (m m2 : M6 α) (h : m.allFinite = false) :
+    logM m = .error .invalid ∧ expM m = .error .invalid ∧ sqrtM m = .error .invalid ∧
+    sqrtAbsM m = .error .invalid ∧ jacobM m = .error .invalid ∧ healthyM m = .error .invalid ∧
+    intersect m m2 = .error .invalid ∧ bound m m2 = .error .invalid := by
+  have hd := diagM_nonfinite_invalid m h
+  have hs : sqrtM m = .error .invalid := by unfold sqrtM; rw [hd]
+  have ha : sqrtAbsM m = .error .invalid := by unfold sqrtAbsM; rw [hd]
+  refine ⟨?_, ?_, hs, ha, ?_, ?_, ?_, ?_⟩
+  · unfold logM; rw [hd]
+  · unfold expM; rw [hd]
+  · unfold jacobM; rw [hd]
+  · unfold healthyM; rw [hd]
+  · unfold intersect; rw [hs]
+  · unfold bound; rw [ha]
+
+/-- the guard is reachable: a NaN entry at the `Float` instance -/
+example : diagM (⟨1, 0, 0, 1, 0, (0 : Float) / 0⟩ : M6 Float) = .error .invalid :=
+  diagM_nonfinite_invalid _ (by decide +kernel)
+
+/-! ### closed-form 2x2 -/
+
+/-- `ref_matrix_diag_m2`: on success the two vectors are orthonormal and `form_m2` gives back m (all branches) -/
+theorem diagM2_spec (m : M3 ℝ) (d : Eig6 ℝ) (h : diagM2 m = .ok d) :
+    Orthonormal2 d ∧ formM2 d = m := diagM2_spec' m d h
+
+/-- over ℝ the closed form never fails -/
+theorem diagM2_total (m : M3 ℝ) : ∃ d, diagM2 m = .ok d := diagM2_total' m
+
+/-! ### first rotation of `ref_matrix_diag_m` -/
+
+/-- the first rotation is an orthogonal similarity: the vectors are orthonormal and
+    `Q · tridiag(d; e0, e1) · Qᵀ = m` with the coded d and e (both branches; the `else` branch is the
+    identity on an already tridiagonal input), and the QL loop starts with `e[2] = f = tst1 = 0` -/
+theorem diagM_rot0 (m : M6 ℝ) :
+    Orthonormal (rot0 m).d ∧ tridiagForm (rot0 m).d (rot0 m).e0 (rot0 m).e1 = m ∧
+    (rot0 m).e2 = 0 ∧ (rot0 m).f = 0 ∧ (rot0 m).tst1 = 0 :=
+  ⟨(rot0_spec m).1, (rot0_spec m).2, rot0_e2 m, rot0_f m, rot0_tst1 m⟩
+
+/-! ### eigen systems, quadratic forms, functions of a matrix -/
+
+/-- `xᵀ (form_m d) x = Σ l_k (v_k · x)²` -/
+theorem formM_quadratic_form (d : Eig12 ℝ) (x : Vec3 ℝ) :
+    vtMv (formM d) x =
+      d.l0 * (d.x0 * x.x + d.y0 * x.y + d.z0 * x.z) ^ 2 +
+      d.l1 * (d.x1 * x.x + d.y1 * x.y + d.z1 * x.z) ^ 2 +
+      d.l2 * (d.x2 * x.x + d.y2 * x.y + d.z2 * x.z) ^ 2 := by
+  simp only [vtMv, formM, mul_eq, add_eq]; ring
 
 /-- matrix functions are well defined: two eigen systems of the same matrix give the same `f(m)` -/
 theorem formM_fun_congr {d d' : Eig12 ℝ} {m : M6 ℝ} (f : ℝ → ℝ) (h : IsEigSys d m) (h' : IsEigSys d' m) :
     formM (mapEig f d) = formM (mapEig f d') := Refine.Model.Matrix.formM_fun_congr f h h'
+
+/-- `exp_m (log_m m) = m` for positive eigenvalues, given exact inner decompositions -/
+theorem exp_log (m lg : M6 ℝ) (d d' : Eig12 ℝ)
+    (h1 : diagM m = .ok d) (he : IsEigSys d m) (hpos : 0 < d.l0 ∧ 0 < d.l1 ∧ 0 < d.l2)
+    (hl : logM m = .ok lg) (h2 : diagM lg = .ok d') (he' : IsEigSys d' lg) :
+    expM lg = .ok m := by
+  unfold logM at hl; rw [h1] at hl
+  injection hl with hl
+  unfold expM; rw [h2]
+  show Except.ok (formM (mapEig Scalar.exp d')) = Except.ok m
+  have hsys : IsEigSys (mapEig Scalar.log d) lg := ⟨orthonormal_mapEig _ he.1, hl⟩
+  have := Refine.Model.Matrix.formM_fun_congr Scalar.exp he' hsys
+  rw [this, mapEig_mapEig]
+  have : mapEig (fun t => Scalar.exp (Scalar.log t)) d = d := by
+    rw [← mapEig_id d]
+    apply mapEig_congr <;> simp only [mapEig_id, exp_eq, log_eq]
+    · exact Real.exp_log hpos.1
+    · exact Real.exp_log hpos.2.1
+    · exact Real.exp_log hpos.2.2
+  rw [this, he.2]
+
+/-- `log_m (exp_m m) = m` for every symmetric m, given exact inner decompositions -/
+theorem log_exp (m ex : M6 ℝ) (d d' : Eig12 ℝ)
+    (h1 : diagM m = .ok d) (he : IsEigSys d m)
+    (hx : expM m = .ok ex) (h2 : diagM ex = .ok d') (he' : IsEigSys d' ex) :
+    logM ex = .ok m := by
+  unfold expM at hx; rw [h1] at hx
+  injection hx with hx
+  unfold logM; rw [h2]
+  show Except.ok (formM (mapEig Scalar.log d')) = Except.ok m
+  have hsys : IsEigSys (mapEig Scalar.exp d) ex := ⟨orthonormal_mapEig _ he.1, hx⟩
+  have := Refine.Model.Matrix.formM_fun_congr Scalar.log he' hsys
+  rw [this, mapEig_mapEig]
+  have : mapEig (fun t => Scalar.log (Scalar.exp t)) d = d := by
+    rw [← mapEig_id d]
+    apply mapEig_congr <;> simp only [mapEig_id, exp_eq, log_eq, Real.log_exp]
+  rw [this, he.2]
+
+/-- the matrix facts behind `sqrt_m`: eigenvalues are non-negative with non-zero roots, `s² = m`,
+    `s · is = is · s = 1` -/
+theorem sqrtM_spec (m s is : M6 ℝ) (d : Eig12 ℝ) (h1 : diagM m = .ok d) (he : IsEigSys d m)
+    (h : sqrtM m = .ok (s, is)) :
+    (0 < d.l0 ∧ 0 < d.l1 ∧ 0 < d.l2) ∧
+    s.toMat * s.toMat = m.toMat ∧ s.toMat * is.toMat = 1 ∧ is.toMat * s.toMat = 1 := by
+  unfold sqrtM at h; rw [h1] at h
+  simp only at h
+  by_cases hneg : (Scalar.lt d.l0 Scalar.zero || Scalar.lt d.l1 Scalar.zero || Scalar.lt d.l2 Scalar.zero) = true
+  · rw [if_pos hneg] at h; exact absurd h (by simp)
+  rw [if_neg hneg] at h
+  simp only [Bool.or_eq_true, lt_iff, zero_eq, not_or, not_lt] at hneg
+  obtain ⟨⟨h0, h1'⟩, h2⟩ := hneg
+  obtain ⟨r0, r1, r2, hs, his⟩ := sqrtTail_ok h
+  have p0 : 0 < d.l0 := lt_of_le_of_ne h0 (fun e => r0 (by rw [← e, Real.sqrt_zero]))
+  have p1 : 0 < d.l1 := lt_of_le_of_ne h1' (fun e => r1 (by rw [← e, Real.sqrt_zero]))
+  have p2 : 0 < d.l2 := lt_of_le_of_ne h2 (fun e => r2 (by rw [← e, Real.sqrt_zero]))
+  have hss : s.toMat * s.toMat = m.toMat := by
+    rw [hs, toMat_formM_mul d he.1]
+    have : mapEig (fun t => Real.sqrt t * Real.sqrt t) d = d := by
+      rw [← mapEig_id d]
+      apply mapEig_congr <;> simp only [mapEig_id]
+      · exact Real.mul_self_sqrt h0
+      · exact Real.mul_self_sqrt h1'
+      · exact Real.mul_self_sqrt h2
+    rw [this, he.2]
+  have hsi : s.toMat * is.toMat = 1 := by
+    rw [hs, his, toMat_formM_mul d he.1]
+    have : mapEig (fun t => Real.sqrt t * (1 / Real.sqrt t)) d = mapEig (fun _ => (1 : ℝ)) d := by
+      apply mapEig_congr
+      · field_simp
+      · field_simp
+      · field_simp
+    rw [this, toMat_formM_one d he.1]
+  exact ⟨⟨p0, p1, p2⟩, hss, hsi, mul_eq_one_comm.mp hsi⟩
+
+/-- `sqrt_m`: the first result squares to m -/
+theorem sqrt_sq (m s is : M6 ℝ) (d : Eig12 ℝ) (h1 : diagM m = .ok d) (he : IsEigSys d m)
+    (h : sqrtM m = .ok (s, is)) : s.toMat * s.toMat = m.toMat :=
+  (sqrtM_spec m s is d h1 he h).2.1
+
+/-- `sqrt_m`: the two results are inverse to each other -/
+theorem sqrt_invsqrt (m s is : M6 ℝ) (d : Eig12 ℝ) (h1 : diagM m = .ok d) (he : IsEigSys d m)
+    (h : sqrtM m = .ok (s, is)) : s.toMat * is.toMat = 1 ∧ is.toMat * s.toMat = 1 :=
+  (sqrtM_spec m s is d h1 he h).2.2
 
 end Refine.Props.C16
